@@ -184,8 +184,8 @@ Definition sl_in (d0 : ldist string) (v0 v : list string) : Prop :=
 
 Definition dd_like (d0 : ddist) (v0 : float) (d : ddist) (v : float) : Prop :=
   match d0, d with
-  | DNone, DNone => v = v0
-  | DRange a b c e, DRange a' b' c' e' => a' = a /\ b' = b /\ c' = c /\ e' = e
+  | DNone, DNone => nz v = nz v0     (* up to the sign of zero, which proto.Clone drops *)
+  | DRange a b c e, DRange a' b' c' e' => nz a' = nz a /\ nz b' = nz b /\ nz c' = nz c /\ nz e' = nz e
   | DList o r, DList o' r' => incl o' o /\ r' = r
   | _, _ => False
   end.
@@ -194,7 +194,7 @@ Definition dd_like (d0 : ddist) (v0 : float) (d : ddist) (v : float) : Prop :=
     that was clamped is itself NaN (inf - inf, 0 * inf: see docs/props/C20.md) *)
 Definition dd_in (d0 : ddist) (v0 v : float) : Prop :=
   match d0 with
-  | DNone => v = v0
+  | DNone => nz v = nz v0
   | DRange mn mx _ _ =>
       PrimFloat.is_nan mn = false -> PrimFloat.is_nan mx = false ->
       PrimFloat.is_nan v = true \/ (PrimFloat.leb mn v = true /\ PrimFloat.leb v mx = true)
@@ -372,19 +372,69 @@ Proof.
       * right. split; apply not_ltb_leb; assumption.
 Qed.
 
+Lemma nz_idem x : nz (nz x) = nz x.
+Proof.
+  unfold nz. destruct (PrimFloat.eqb x 0) eqn:E; [reflexivity|now rewrite E].
+Qed.
+
+(** [nz] only changes the sign of a zero, which no comparison sees *)
+Lemma nz_SF x : Prim2SF (nz x) = Prim2SF x \/
+                (exists s, Prim2SF x = S754_zero s /\ Prim2SF (nz x) = S754_zero false).
+Proof.
+  unfold nz. destruct (PrimFloat.eqb x 0) eqn:E; [right|now left].
+  rewrite eqb_spec in E. unfold SFeqb in E.
+  change (Prim2SF 0) with (S754_zero false) in E.
+  destruct (Prim2SF x) as [s|s| |s m e]; cbn in E; try discriminate;
+    try (destruct s; discriminate).
+  exists s. split; reflexivity.
+Qed.
+
+Lemma SFcompare_zero_l s s' y : SFcompare (S754_zero s) y = SFcompare (S754_zero s') y.
+Proof. destruct y; reflexivity. Qed.
+
+Lemma SFcompare_zero_r s s' x : SFcompare x (S754_zero s) = SFcompare x (S754_zero s').
+Proof. destruct x; reflexivity. Qed.
+
+Lemma leb_nz_l x y : PrimFloat.leb (nz x) y = PrimFloat.leb x y.
+Proof.
+  rewrite !leb_spec. unfold SFleb. destruct (nz_SF x) as [->|(s & Hx & ->)]; [reflexivity|].
+  rewrite Hx. now rewrite (SFcompare_zero_l false s).
+Qed.
+
+Lemma leb_nz_r x y : PrimFloat.leb x (nz y) = PrimFloat.leb x y.
+Proof.
+  rewrite !leb_spec. unfold SFleb. destruct (nz_SF y) as [->|(s & Hy & ->)]; [reflexivity|].
+  rewrite Hy. now rewrite (SFcompare_zero_r false s).
+Qed.
+
+Lemma is_nan_nz x : PrimFloat.is_nan (nz x) = PrimFloat.is_nan x.
+Proof.
+  unfold PrimFloat.is_nan. rewrite !eqb_spec. unfold SFeqb.
+  destruct (nz_SF x) as [->|(s & Hx & ->)]; [reflexivity|]. rewrite Hx. now destruct s.
+Qed.
+
 Lemma update_double_gen d0 v0 d v t v' d' t' :
   dd_like d0 v0 d v -> update_double v d t = RV (v', d') t' ->
   dd_like d0 v0 d' v' /\ dd_in d0 v0 v'.
 Proof.
-  intros Hl. destruct d as [|mn mx dmn dmx|opts rnd]; cbn [update_double].
+  intros Hl. destruct d as [|mn mx dmn dmx|opts rnd]; cbn [update_double]; cbv zeta.
   - intros H; inversion H; subst. destruct d0; cbn in *; try tauto.
-  - destruct (fgt mn mx) eqn:E1; [discriminate|].
-    destruct (PrimFloat.ltb v mn || fgt v mx); [discriminate|].
-    destruct (_ && fgt dmn dmx); [discriminate|].
+    rewrite nz_idem. tauto.
+  - destruct (fgt (nz mn) (nz mx)) eqn:E1; [discriminate|].
+    destruct (PrimFloat.ltb (nz v) (nz mn) || fgt (nz v) (nz mx)); [discriminate|].
+    destruct (_ && fgt (nz dmn) (nz dmx)); [discriminate|].
     destruct (float64 t) as [r t1| | |]; cbn; try discriminate.
-    intros H; inversion H; subst. destruct d0; cbn in *; try tauto.
-    destruct Hl as (-> & -> & -> & ->). split; [tauto|].
-    intros Hmn Hmx. now apply clampF_range.
+    intros H; inversion H; subst. destruct d0 as [|a b c e|]; cbn in *; try tauto.
+    destruct Hl as (Ha & Hb & Hc & He). rewrite !nz_idem. split; [tauto|].
+    intros Hmn Hmx.
+    pose proof (clampF_range (nz mn) (nz mx)
+      ((if fnonzero (nz dmn) || fnonzero (nz dmx) then nz v else 0) +
+       (r * ((if fnonzero (nz dmn) || fnonzero (nz dmx) then nz dmx else nz mx) -
+             (if fnonzero (nz dmn) || fnonzero (nz dmx) then nz dmn else nz mn)) +
+        (if fnonzero (nz dmn) || fnonzero (nz dmx) then nz dmn else nz mn)))%float) as Hc'.
+    rewrite Ha, Hb in Hc'. rewrite !is_nan_nz in Hc'. specialize (Hc' Hmn Hmx).
+    rewrite Ha, Hb in E1. specialize (Hc' E1).
+    rewrite Ha, Hb. rewrite leb_nz_l, leb_nz_r in Hc'. exact Hc'.
   - destruct (pick_list opts rnd t) as [[x o'] t1| | |] eqn:Ep; cbn; try discriminate.
     intros H; inversion H; subst. apply pick_list_spec in Ep. destruct Ep as [Hx Ho].
     destruct d0; cbn in *; try tauto. destruct Hl as [Hi ->]. split; [split|]; auto.
